@@ -84,9 +84,9 @@ CHECKS = {
         "level_note": "sampling of an unbounded input space; messages that are valid protocol requests (e.g. a well-formed routing update about a "
                       "real node, a duplicate-node notice) are honoured by design and are not generated",
         "quick": {"runs": 640, "per_proc": 40},
-        "thorough": {"runs": 20000, "per_proc": 100},
+        "thorough": {"runs": 20000, "per_proc": 50},
         "hang_is_violation": True,
-        "proc_timeout": 90,
+        "proc_timeout": 300,
         "rule": "one run = victim with two real neighbours (one datagram link, one framed link) and two scripted peers (datagram session, "
                 "framed byte stream); 4-40 inputs of 20 kinds x parameters, each before or after the handshake; after each input: ping a->b "
                 "through the victim answered and the victim's status readable; distinct_nontrivial counts distinct sets of input kinds",
